@@ -373,7 +373,7 @@ def _analyse_variants(facts, fn_def, max_split=5, **kw):
     interest = interest_keys(facts.body(fn_def))
     scored = []
     for ev in sx.trace:
-        if ev["kind"] == "joinphi" and hk.main_loop is not None and tast.contains(hk.main_loop, lambda x: x is ev["node"]):
+        if ev["kind"] == "joinphi" and hk.main_loop is not None and tast.within(hk.main_loop, ev["node"]):
             c = ev["node"]["cond"]
             tested = {p["id"] for p in tast.find(c, lambda z: z.get("k") == "Path" and z.get("res") == "local" and z.get("ty") == "bool")}
             polys = [k for k, v in ev["created"].items() if isinstance(v, Poly) and k not in tested]
